@@ -19,7 +19,11 @@ _mon = sys.monitoring
 
 
 class Perturber:
-    def __init__(self, functions, seed=0, p_yield=0.2, p_sleep=0.02, max_sleep=0.002):
+    def __init__(self, functions, seed=0, p_yield=0.2, p_sleep=0.02, max_sleep=0.002,
+                 focus=(), n_points=0, point_delay=0.002):
+        """focus/n_points: besides the random yields, `n_points` randomly chosen source lines of the
+        `focus` functions become *delay points*: whichever thread reaches one sleeps `point_delay`
+        every time (a PCT-like strategy: "thread X is slow exactly here")."""
         self.codes = {}
         for f in functions:
             code = getattr(f, "__code__", None) or getattr(getattr(f, "__wrapped__", None), "__code__", None)
@@ -33,6 +37,20 @@ class Perturber:
         self.last_thread = None
         self.switch_pairs = collections.Counter()
         self.active = False
+        self.points = set()
+        self.point_hits = 0
+        self.point_delay = point_delay
+        cand = []
+        for f in focus:
+            code = getattr(f, "__code__", None)
+            if code is None:
+                continue
+            self.codes.setdefault(code, f.__qualname__)
+            lines = sorted({ln for _, _, ln in code.co_lines() if ln is not None})
+            cand.extend((code, ln) for ln in lines[1:])
+        if cand and n_points:
+            for _ in range(n_points):
+                self.points.add(self.rng.choice(cand))
 
     def _on_line(self, code, line):
         name = self.codes.get(code)
@@ -45,6 +63,11 @@ class Perturber:
             if self.last_thread is not None and self.last_thread[0] != tname:
                 self.switch_pairs[(self.last_thread[1], name)] += 1
             self.last_thread = (tname, name)
+        if (code, line) in self.points:
+            self.point_hits += 1
+            self.injected += 1
+            time.sleep(self.point_delay)
+            return None
         if r < self.p_sleep:
             self.injected += 1
             time.sleep(self.max_sleep * r / self.p_sleep)
